@@ -6,6 +6,7 @@ def text_edit(old, new):
         return src.replace(old, new, 1) if old in src else None
     return edit
 MUTANTS = [
+    Mutant('filters_removed_unconditionally', 'src/pharmpy/model/external/nonmem/model.py', text_edit("            if rewritten or model.datainfo.path != model.internals.old_datainfo.path:\n", "            if True or rewritten:\n"), 'R7', 'filters removed although the file reference stays'),
     Mutant('write_csv_global_token', 'src/pharmpy/modeling/write_csv.py', text_edit("na_rep=model.datainfo.missing_data_token", "na_rep=conf.missing_data_token"), 'R5', 'global token'),
     Mutant('obs_lookup_order', 'src/pharmpy/model/external/nonmem/parsing.py', text_edit("        label = di.typeix['mdv'][0].name\n    except IndexError:\n        try:\n            label = di.typeix['event'][0].name", "        label = di.typeix['event'][0].name\n    except IndexError:\n        try:\n            label = di.typeix['mdv'][0].name"), 'R6', 'EVID before MDV'),
     Mutant('ne_numeric', D, text_edit('OP_STR_NE: ".NE." | "/="', 'OP_STR_NE: "/="').__call__ and text_edit('OP_NE    : ".NEN."\n        OP_STR_NE: ".NE." | "/="', 'OP_NE    : ".NEN." | ".NE."\n        OP_STR_NE: "/="'), 'R1', '.NE. compared numerically'),
